@@ -12,15 +12,22 @@ import (
 	"encoding/hex"
 	"encoding/json"
 	"errors"
+	"fmt"
 	"io"
 	"strings"
 	"testing"
 
+	"github.com/libp2p/go-libp2p/core/host"
+	"github.com/libp2p/go-libp2p/core/network"
+	"github.com/libp2p/go-libp2p/core/peer"
+	"github.com/libp2p/go-libp2p/core/protocol"
 	"github.com/libp2p/go-msgio"
 	discoverypb "github.com/primevprotocol/mev-commit/gen/go/discovery/v1"
 	handshakepb "github.com/primevprotocol/mev-commit/gen/go/handshake/v1"
 	preconfpb "github.com/primevprotocol/mev-commit/gen/go/preconfirmation/v1"
 	"github.com/primevprotocol/mev-commit/pkg/p2p"
+	"github.com/primevprotocol/mev-commit/pkg/util"
+	"github.com/prometheus/client_golang/prometheus"
 	"google.golang.org/grpc/codes"
 	"google.golang.org/grpc/status"
 	"google.golang.org/protobuf/proto"
@@ -37,6 +44,9 @@ type c13Write struct {
 	Code int    `json:"code,omitempty"`
 	Msg  string `json:"msg,omitempty"`  // error message (hex)
 	Len  *int64 `json:"len,omitempty"`  // raw: explicit length prefix (may lie)
+	// error: produced not by WriteError directly but by a protocol handler returning it through the
+	// node's real stream wrapper (AddStreamHandlers); kind of error the handler returned
+	Via string `json:"via,omitempty"` // "" | status | plain | wrapped-cancel
 }
 type c13In struct {
 	Tag    string     `json:"tag"`
@@ -117,6 +127,50 @@ func c13New(ty string) proto.Message {
 	}
 }
 
+type c13Host struct {
+	host.Host
+	handler network.StreamHandler
+}
+
+func (h *c13Host) SetStreamHandlerMatch(_ protocol.ID, _ func(protocol.ID) bool, hd network.StreamHandler) {
+	h.handler = hd
+}
+
+// c13ViaWrapper: a registered peer opens a stream; the protocol handler behind the node's real
+// wrapper returns an error; returns the frames the wrapper wrote after its response header
+func c13ViaWrapper(kind string, code codes.Code, msg string) ([]byte, bool) {
+	fh := &c13Host{}
+	svc := &Service{baseCtx: context.Background(), host: fh, peers: newPeerRegistry(), logger: util.NewTestLogger(io.Discard),
+		metrics: newMetrics(prometheus.NewRegistry(), "verif"), blockMap: make(map[peer.ID]blockInfo)}
+	pid := peer.ID("c13-remote")
+	conn := &c04Conn{pid: pid}
+	svc.peers.addPeer(conn, &p2p.Peer{Type: p2p.PeerTypeBidder})
+	svc.AddStreamHandlers(p2p.StreamDesc{Name: "verif", Version: "1.0.0", Handler: func(context.Context, p2p.Peer, p2p.Stream) error {
+		switch kind {
+		case "plain":
+			return errors.New(msg)
+		case "wrapped-cancel":
+			return fmt.Errorf("%s: %w", strings.TrimSuffix(msg, ": context canceled"), context.Canceled)
+		}
+		return status.Error(code, msg)
+	}})
+	var hdr c13Buf
+	_ = newMetadataStream(&hdr).WriteHeader(context.Background(), p2p.Header{})
+	ls := &c04Stream{rd: bytes.NewReader(hdr.Bytes()), conn: conn, writeFail: -1}
+	fh.handler(ls)
+	out := ls.wr.Bytes()
+	// skip the response header frame
+	if len(out) < 4 {
+		return nil, false
+	}
+	n := int(binary.BigEndian.Uint32(out[:4]))
+	if len(out) < 4+n {
+		return nil, false
+	}
+	rest := out[4+n:]
+	return rest, len(rest) > 0
+}
+
 func c13Run(in c13In, rng *vrng) (obs c13Obs) {
 	obs.Reads = []c13Read{}
 	obs.WriteErr = []string{}
@@ -167,6 +221,15 @@ func c13Run(in c13In, rng *vrng) (obs c13Obs) {
 			types = append(types, wr.Ty)
 		case "error":
 			mb, _ := hex.DecodeString(wr.Msg)
+			if wr.Via != "" {
+				frame, ok := c13ViaWrapper(wr.Via, codes.Code(wr.Code), string(mb))
+				if !ok {
+					obs.WriteErr = append(obs.WriteErr, "wrapper wrote no error frame")
+				}
+				w.Write(frame)
+				types = append(types, "bytes")
+				continue
+			}
 			if err := ms.WriteError(ctx, status.New(codes.Code(wr.Code), string(mb))); err != nil {
 				obs.WriteErr = append(obs.WriteErr, err.Error())
 			}
@@ -322,6 +385,20 @@ func TestVerifC13(t *testing.T) {
 			}
 		}
 		in := c13In{Tag: "sequence", Writes: ws, Chunk: chunks[rng.intn(len(chunks))]}
+		out.emit(in, c13Run(in, rng))
+	}
+	// errors returned by a protocol handler through the node's stream wrapper: every non-OK code,
+	// plain errors (code Unknown, the error text), errors wrapping context.Canceled
+	for code := 1; code <= 16; code++ {
+		for _, m := range []string{"", "handler says no"} {
+			in := c13In{Tag: "handler-error", Writes: []c13Write{{T: "error", Code: code, Msg: hexs(m), Via: "status"}, sample()}, Chunk: chunks[rng.intn(len(chunks))]}
+			out.emit(in, c13Run(in, rng))
+		}
+	}
+	for _, m := range []string{"boom", "x"} {
+		in := c13In{Tag: "handler-error", Writes: []c13Write{{T: "error", Code: 2, Msg: hexs(m), Via: "plain"}}, Chunk: 0}
+		out.emit(in, c13Run(in, rng))
+		in = c13In{Tag: "handler-error", Writes: []c13Write{{T: "error", Code: 2, Msg: hexs(m + ": context canceled"), Via: "wrapped-cancel"}}, Chunk: 0}
 		out.emit(in, c13Run(in, rng))
 	}
 	// malformed streams
